@@ -670,6 +670,21 @@ Proof.
   apply (alive_get_mut_flushed _ _ Hfl). unfold alive. rewrite Ha'. discriminate.
 Qed.
 
+Lemma nil_if_no_member {A} (l : list A) : (forall x, ~ In x l) -> l = [].
+Proof. destruct l as [|a l]; [reflexivity|]. intros H. exfalso. apply (H a). left. reflexivity. Qed.
+
+Theorem c18_quiet_proof : c18_quiet_stmt.
+Proof.
+  intros s reads s' reps Hn Hp Ht.
+  destruct (c18_track_proof s reads s' reps Hn Hp Ht) as (Hw & Hsnap & _).
+  assert (Hn' : nodup_live s') by (unfold nodup_live, t_entities in *; rewrite Hw; exact Hn).
+  destruct (c18_sets_proof s' Hn') as (Ha & Hc & Hr & _).
+  split; [|split]; apply nil_if_no_member.
+  - intros [b v] Hin. apply Ha in Hin as (He & Hp0). specialize (Hsnap b). rewrite He in Hsnap. congruence.
+  - intros [[b o] v] Hin. apply Hc in Hin as (He & Hp0 & Hne). specialize (Hsnap b). rewrite He in Hsnap. congruence.
+  - intros [b o] Hin. apply Hr in Hin as (He & Hp0). specialize (Hsnap b). rewrite He in Hsnap. congruence.
+Qed.
+
 Print Assumptions c18_sets_proof.
 Print Assumptions c18_track_proof.
 Print Assumptions c18_script_irrelevant_proof.
@@ -678,3 +693,4 @@ Print Assumptions c18_nodup_proof.
 Print Assumptions c18_despawn_proof.
 Print Assumptions c18_spawn_at_proof.
 Print Assumptions c18_frame_proof.
+Print Assumptions c18_quiet_proof.
